@@ -1,6 +1,6 @@
 /-
 C13 — model of /repo/crypto: check_gp.go (CheckGP, checkSubgroup), check_dh.go (CheckDH,
-checkPrime), dh.go (CheckDHParams, InRange), pq.go (DecomposePQ).
+checkPrime), dh.go (CheckDHParams, InRange — both *translated* from the source on every run), pq.go (DecomposePQ).
 
 `*big.Int` values are `Int` (sign included: `Rem`/`Quo` are truncated, `BitLen` is of the absolute
 value); the factorisation works on non-negative numbers only and uses `Nat`.
@@ -57,35 +57,13 @@ def checkDH (isPrime : Int → Bool) (g p : Int) : DHRes :=
 
 /-! ## CheckDHParams -/
 
-/-- `crypto.InRange` with the strictness of both comparisons regenerated from the source. -/
-def inRange (x lo hi : Int) : Bool :=
-  (if Facts.C13.inRangeStrictLo then decide (lo < x) else decide (lo ≤ x)) &&
-  (if Facts.C13.inRangeStrictHi then decide (x < hi) else decide (x ≤ hi))
+/-- `crypto.InRange`: **regenerated** — `Facts.C13.inRangeT` is the translation of the current Go
+source (harness/c13/bigtr.go). -/
+def inRange (x lo hi : Int) : Bool := Facts.C13.inRangeT x lo hi
 
-/-- `safetyRangeMin` of `CheckDHParams`. -/
-def safetyMin : Int := ((Facts.C13.safetyBase ^ Facts.C13.safetyExp : Nat) : Int)
-
-/-- bounds of `CheckDHParams`: 0=one 1=dhPrimeMinusOne 2=safetyRangeMin 3=safetyRangeMax. -/
-def dhBound (p : Int) : Nat → Int
-  | 0 => 1
-  | 1 => p - 1
-  | 2 => safetyMin
-  | _ => p - safetyMin
-
-/-- checked value: 0=g 1=gA 2=gB. -/
-def dhVar (g ga gb : Int) : Nat → Int
-  | 0 => g
-  | 1 => ga
-  | _ => gb
-
-/-- index of the first failing `InRange` check of a list of checks. -/
-def firstFail (p g ga gb : Int) : List (Nat × Nat × Nat) → Nat → Option Nat
-  | [], _ => none
-  | (x, lo, hi) :: rest, i =>
-    if inRange (dhVar g ga gb x) (dhBound p lo) (dhBound p hi) then firstFail p g ga gb rest (i + 1) else some i
-
-/-- `crypto.CheckDHParams`: `none` = accepted, `some i` = the i-th check (source order) rejected. -/
-def checkDHParams (p g ga gb : Int) : Option Nat := firstFail p g ga gb Facts.C13.dhChecks 0
+/-- `crypto.CheckDHParams`: **regenerated** translation of the current Go source; `none` = accepted
+(`return nil`), `some i` = the i-th `return <error>` in source order. -/
+def checkDHParams (p g ga gb : Int) : Option Nat := Facts.C13.checkDHParamsT p g ga gb
 
 /-! ## DecomposePQ -/
 
